@@ -236,6 +236,19 @@ func craftedInputs() []epInput {
 		for _, ft := range [][]byte{ftypCrx, box("ftyp", []byte("avif\x00\x00\x00\x00mif1avif"))} {
 			add("bmff-meta-iloc-declare-64MiB", append(append([]byte{}, ft...), big("meta", 64<<20+12, append([]byte{0, 0, 0, 0}, iloc...))...))
 		}
+		// iloc entries that declare 65535 extents each while offset_size = length_size = 0 (an extent then takes no bytes),
+		// and with 4-byte fields (the extents then run off the box): counts from the file must not drive allocation
+		for _, szb := range []byte{0x00, 0x44, 0x04, 0x40} {
+			var ents []byte
+			for k := 0; k < 20; k++ {
+				ents = append(ents, 0, byte(k+1), 0, 0, 0xff, 0xff)
+			}
+			il := box("iloc", append([]byte{0, 0, 0, 0, szb, 0, 0, 20}, ents...))
+			hdl := box("hdlr", append(append(make([]byte, 8), []byte("pict")...), make([]byte, 13)...))
+			for _, ft := range [][]byte{ftypCrx, box("ftyp", []byte("avif\x00\x00\x00\x00mif1avif"))} {
+				add(fmt.Sprintf("bmff-iloc-65535-extents-sizes-%02x", szb), append(append([]byte{}, ft...), box("meta", append(append([]byte{0, 0, 0, 0}, hdl...), il...))...))
+			}
+		}
 		hd := big("hdlr", 8<<20, []byte{0, 0, 0, 0, 0, 0, 0, 0, 'p', 'i', 'c', 't'})
 		add("bmff-meta-hdlr-declare-8MiB", append(append([]byte{}, ftypCrx...), big("meta", 8<<20+12, append([]byte{0, 0, 0, 0}, hd...))...))
 		add("bmff-ftyp-declares-16MiB", big("ftyp", 16<<20, []byte("crx \x00\x00\x00\x01crx isom")))
